@@ -14,7 +14,7 @@
    that worker's rr_local-th sample.  The strength applied to it and written to ctx is schedule(n / B). *)
 From Coq Require Import ZArith QArith Qminmax List Bool.
 Import ListNotations.
-From KD Require Import C15.Base C15.gen.Strength.
+From KD Require Import C15.Base C15.gen.Strength C15.Sched.
 Open Scope Q_scope.
 
 (* ---- lifting leaf predicates / relations to trees ---- *)
@@ -103,3 +103,91 @@ Definition rr_owner (W B n : Z) : Z := (n / B) mod W.             (* worker that
 Definition rr_local (W B n : Z) : Z := (n / B / W) * B + n mod B. (* how many samples that worker saw before *)
 (* the global sample that is the s-th sample of worker r *)
 Definition rr_global (W B r s : Z) : Z := ((s / B) * W + r) * B + s mod B.
+
+Definition rr_owner_nat (W : nat) (B : Z) (n : nat) : nat := Z.to_nat (rr_owner (Z.of_nat W) B (Z.of_nat n)).
+
+(* ---- interleaved histories on shared augmentation objects (model: Sched.v, second part) ----
+   W copies of a pipeline (one per worker): K scheduled transforms (cfgs: batch size, announced length, heap cells
+   reached) over a heap of J augmentation objects (inners0 = as constructed), optionally an outer composition.
+   What happens, in time order (gstep): scheduled transform k processes ITS next global sample (its samples are dealt
+   to the copies in full batches round-robin, like DataLoader batches: k's n-th sample goes to copy (n / B_k) mod W);
+   somebody calls scale_strength(f) on object j of copy w; somebody calls scale_strength(f) on copy w's outer
+   composition.  The steps of different scheduled transforms and the foreign calls interleave ARBITRARILY.
+
+   The spec keeps, per scheduled transform, how many samples it has processed (counts) and, per copy and heap cell,
+   the LAST factor the cell was given by anybody (last; None = never scaled).  It says:
+     * the k-th scheduled transform's call on its n-th sample reports v = schedule_k(n / B_k), whatever happened
+       in between to anything,
+     * and is applied with every cell it reaches at `constructed cell scaled by v` (heap_of ... after upd_cells),
+     * every cell always is `constructed cell scaled by the last factor it was given` (no compounding, no stale value,
+       nothing leaks from one cell / copy / scheduled transform to another). *)
+Inductive gstep : Type :=
+  | GCall (k : nat)
+  | GScale (w j : nat) (f : Q)
+  | GScaleOuter (w : nat) (f : Q).
+
+Definition upd {A : Type} (c : nat -> A) (k : nat) (x : A) : nat -> A := fun y => if Nat.eqb y k then x else c y.
+
+Definition cell_at (t : tree) (o : option Q) : tree := match o with None => t | Some f => tree_scale t f end.
+Fixpoint heap_from (j0 : nat) (inners0 : list tree) (l : nat -> option Q) : list tree :=
+  match inners0 with
+  | [] => []
+  | t :: r => cell_at t (l j0) :: heap_from (S j0) r l
+  end.
+Definition heap_of (inners0 : list tree) (l : nat -> option Q) : list tree := heap_from 0 inners0 l.
+Definition upd_cells (l : nat -> option Q) (js : list nat) (f : Q) : nat -> option Q :=
+  fold_left (fun l j => upd l j (Some f)) js l.
+
+(* which copy handles which call: k's n-th sample goes to copy rr_owner_nat W B_k n (a step naming a scheduled
+   transform that does not exist ends the history) *)
+Fixpoint route (W : nat) (cfgs : list scfg) (counts : nat -> nat) (gs : list gstep) : list pstep :=
+  match gs with
+  | [] => []
+  | GCall k :: r =>
+      match nth_error cfgs k with
+      | None => []
+      | Some (B, _, _) => PCall (rr_owner_nat W B (counts k)) k :: route W cfgs (upd counts k (S (counts k))) r
+      end
+  | GScale w j f :: r => PScale w j f :: route W cfgs counts r
+  | GScaleOuter w f :: r => PScaleOuter w f :: route W cfgs counts r
+  end.
+
+Fixpoint ispec_run (W : nat) (cfgs : list scfg) (schedules : nat -> Z -> Z -> Q) (outer : list member)
+                   (inners0 : list tree) (counts : nat -> nat) (last : nat -> nat -> option Q) (gs : list gstep)
+  : list (Q * list tree) :=
+  match gs with
+  | [] => []
+  | GCall k :: r =>
+      match nth_error cfgs k with
+      | None => []
+      | Some (B, i, js) =>
+          let n := counts k in
+          let w := rr_owner_nat W B n in
+          let v := schedules k (rr_batch B (Z.of_nat n)) (n_batches_of i B) in
+          let lw := upd_cells (last w) js v in
+          (v, heap_of inners0 lw) :: ispec_run W cfgs schedules outer inners0 (upd counts k (S n)) (upd last w lw) r
+      end
+  | GScale w j f :: r =>
+      if (w <? W)%nat then
+        let lw := upd (last w) j (Some f) in
+        (f, heap_of inners0 lw) :: ispec_run W cfgs schedules outer inners0 counts (upd last w lw) r
+      else []
+  | GScaleOuter w f :: r =>
+      if (w <? W)%nat then
+        let lw := upd_cells (last w) (outer_targets outer) f in
+        (f, heap_of inners0 lw) :: ispec_run W cfgs schedules outer inners0 counts (upd last w lw) r
+      else []
+  end.
+
+(* how many of the steps are calls of scheduled transform k *)
+Definition count_calls (k : nat) (gs : list gstep) : nat :=
+  length (filter (fun g => match g with GCall k' => Nat.eqb k' k | _ => false end) gs).
+
+(* a step that names an existing scheduled transform / pipeline copy (object indices need not exist: scaling through a
+   reference nobody holds changes nothing) *)
+Definition gstep_valid (W K : nat) (g : gstep) : Prop :=
+  match g with
+  | GCall k => (k < K)%nat
+  | GScale w _ _ => (w < W)%nat
+  | GScaleOuter w _ => (w < W)%nat
+  end.
